@@ -83,6 +83,20 @@ mod verif_probe_tracker_kinds {
             Kind::BV => T::BV(BatchVisualSort::new(shards, voters, &vopts(method, variant, shards))),
         }
     }
+    /// collects the `n` results of a batch; a result that does not arrive within 20 s (a voting thread died or hangs) is reported
+    /// as the marker scene u64::MAX - 1 instead of blocking the probe for ever
+    fn collect(res: &crate::trackers::batch::PredictionBatchResult, n: usize, out: &mut HashMap<u64, Vec<SortTrack>>) {
+        let mut dup = false;
+        for _ in 0..n {
+            let t0 = std::time::Instant::now();
+            while !res.ready() && t0.elapsed().as_secs() < 20 { std::thread::sleep(std::time::Duration::from_millis(2)); }
+            if !res.ready() { out.insert(u64::MAX - 1, vec![]); return; }
+            let (s, r) = res.get();
+            if out.insert(s, r).is_some() { dup = true; }
+        }
+        if dup { out.insert(u64::MAX, vec![]); }
+    }
+
     impl T {
         /// one step: the scenes (ascending) with at least one detection
         fn step(&mut self, scenes: &[(u64, Vec<Det>)]) -> HashMap<u64, Vec<SortTrack>> {
@@ -97,18 +111,16 @@ mod verif_probe_tracker_kinds {
                     let longest = scenes.iter().map(|(_, d)| d.len()).max().unwrap_or(0);
                     for k in 0..longest { for (s, d) in scenes { if let Some(x) = d.get(k) { req.add(*s, (x.bbox.clone(), x.cid)); } } }
                     t.predict(req);
-                    let mut dup = res.batch_size() != scenes.len();
-                    for _ in 0..res.batch_size() { let (s, r) = res.get(); if out.insert(s, r).is_some() { dup = true; } }
-                    if dup { out.insert(u64::MAX, vec![]); }
+                    if res.batch_size() != scenes.len() { out.insert(u64::MAX, vec![]); }
+                    collect(&res, res.batch_size(), &mut out);
                 }
                 T::BV(t) => {
                     let (mut req, res) = PredictionBatchRequest::<VisualSortObservation>::new();
                     let longest = scenes.iter().map(|(_, d)| d.len()).max().unwrap_or(0);
                     for k in 0..longest { for (s, d) in scenes { if let Some(x) = d.get(k) { req.add(*s, VisualSortObservation::new(x.feat.as_deref(), Some(0.9), x.bbox.clone(), x.cid)); } } }
                     t.predict(req);
-                    let mut dup = res.batch_size() != scenes.len();
-                    for _ in 0..res.batch_size() { let (s, r) = res.get(); if out.insert(s, r).is_some() { dup = true; } }
-                    if dup { out.insert(u64::MAX, vec![]); }
+                    if res.batch_size() != scenes.len() { out.insert(u64::MAX, vec![]); }
+                    collect(&res, res.batch_size(), &mut out);
                 }
             }
             out
@@ -126,6 +138,8 @@ mod verif_probe_tracker_kinds {
             match self { T::V(t) => look(&t.get_main_store(), id), T::BV(t) => look(&t.get_main_store(), id), _ => (0, 0) }
         }
         fn idle(&mut self, s: u64) -> Vec<u64> { let mut v: Vec<u64> = match self { T::S(t) => t.idle_tracks_with_scene(s), T::BS(t) => t.idle_tracks_with_scene(s), T::V(t) => t.idle_tracks_with_scene(s), T::BV(t) => t.idle_tracks_with_scene(s) }.iter().map(|x| x.id).collect(); v.sort(); v }
+        /// (tracks held in the live store, tracks held in the store of collected expired tracks)
+        fn stats(&self) -> (usize, usize) { match self { T::S(t) => (t.active_shard_stats().iter().sum(), t.wasted_shard_stats().iter().sum()), T::BS(t) => (t.active_shard_stats().iter().sum(), t.wasted_shard_stats().iter().sum()), T::V(t) => (t.active_shard_stats().iter().sum(), t.wasted_shard_stats().iter().sum()), T::BV(t) => (t.active_shard_stats().iter().sum(), t.wasted_shard_stats().iter().sum()) } }
         fn skip(&mut self, s: u64, n: usize) { match self { T::S(t) => t.skip_epochs_for_scene(s, n), T::BS(t) => t.skip_epochs_for_scene(s, n), T::V(t) => t.skip_epochs_for_scene(s, n), T::BV(t) => t.skip_epochs_for_scene(s, n) } }
         /// the wasted-track records: (id, observed history, echoed observed box, predicted history, echoed predicted box, feature history - visual kinds only)
         fn wasted_records(&mut self) -> Vec<(u64, Vec<[u32; 5]>, [u32; 5], Vec<[u32; 5]>, [u32; 5], Option<Vec<Option<Vec<u32>>>>)> {
@@ -166,6 +180,11 @@ mod verif_probe_tracker_kinds {
         for step in 0..12usize {
             let batch: Vec<(u64, Vec<Det>)> = scenes.iter().map(|s| (*s, (0..7).filter(|o| present(*s, *o, step)).map(|o| det(*s, o, step, variant & 1 == 1)).collect::<Vec<_>>())).filter(|(_, d)| !d.is_empty()).collect();
             let out = t.step(&batch);
+            if out.contains_key(&(u64::MAX - 1)) {
+                failures.push(format!("{} step={}: tracker_kinds.one_result_per_scene: a result of the batch of {} scenes never arrived (20 s)", ctx, step, batch.len()));
+                std::mem::forget(t); // a tracker whose voting thread died must not be dropped (its Drop joins the threads)
+                return HashMap::new();
+            }
             if out.len() != batch.len() || out.contains_key(&u64::MAX) { failures.push(format!("{} step={}: tracker_kinds.one_result_per_scene: the batch of {} scenes did not deliver exactly one result per scene", ctx, step, batch.len())); }
             for (s, dets) in batch.iter() {
                 let e = { let x = epochs.entry(*s).or_insert(0); *x += 1; *x };
@@ -220,7 +239,13 @@ mod verif_probe_tracker_kinds {
         let empty = HashMap::new();
         let idle: HashMap<u64, Vec<usize>> = scenes.iter().map(|sc| (*sc, t.idle(*sc).iter().map(|i| *names.get(sc).unwrap_or(&empty).get(i).unwrap_or(&999)).collect())).collect();
         for sc in scenes { t.skip(*sc, 10); }
+        // every track has expired and the skips ran the collection: the two statistics account for every track - all of them in the store
+        // of collected tracks, none live -, and for none after they have been handed out
+        let total: usize = names.values().map(|m| m.len()).sum();
+        let st = t.stats();
+        if st != (0, total) { failures.push(format!("{}: tracker_kinds.statistics_account_for_every_track_not_handed_out: after every track expired and was collected the (live, collected) statistics read {:?}, expected (0, {})", ctx, st, total)); }
         let recs = t.wasted_records();
+        if t.stats() != (0, 0) { failures.push(format!("{}: tracker_kinds.statistics_account_for_every_track_not_handed_out: after the hand-out the (live, collected) statistics read {:?}", ctx, t.stats())); }
         let mut result: HashMap<u64, SceneTrace> = HashMap::new();
         for sc in scenes {
             let sn = names.get(sc).unwrap_or(&empty);
@@ -265,8 +290,7 @@ mod verif_probe_tracker_kinds {
                 let mut both = run(kind, method, shards, voters, variant, &[1, 2], &mut failures);
                 let ctx = format!("PROBE input: tracker_kinds kind={:?} method={:?} shards={} voters={} visual variant={}", kind, method, shards, voters, variant);
                 for sc in [1u64, 2] {
-                    let alone = run(kind, method, shards, voters, variant, &[sc], &mut failures).remove(&sc).unwrap();
-                    let both = both.remove(&sc).unwrap();
+                    let (alone, both) = match (run(kind, method, shards, voters, variant, &[sc], &mut failures).remove(&sc), both.remove(&sc)) { (Some(a), Some(b)) => (a, b), _ => continue }; // a run aborted above has reported its failure
                     if both != alone {
                         let k = (0..both.0.len().min(alone.0.len())).find(|k| both.0[*k] != alone.0[*k]);
                         failures.push(format!("{}: tracker_kinds.scene_grouping_is_the_same_with_and_without_other_scenes: scene {} is tracked differently when calls for the other scene (same image region) are interleaved; first difference at its call #{:?}: (track, epoch, length, (features collected, own-area share x1000)) {:?} vs alone {:?}; final idle {:?}/{:?} wasted {:?}/{:?}", ctx, sc, k,
